@@ -80,6 +80,11 @@ func (rt *RoundTripper) cacheResponse(req *http.Request, resp *http.Response) {
 		return
 	}
 
+	// the cache key does not cover the request headers the response varies on
+	if len(resp.Header.Get("Vary")) != 0 {
+		return
+	}
+
 	if expires.IsZero() {
 		if rt.DefaultCacheTTL == 0 {
 			return
@@ -112,6 +117,12 @@ func cacheKey(req *http.Request) string {
 	hash.Write(stringx.ToBytes(req.Method))
 
 	value := req.Header.Get("Authorization")
+	if len(value) != 0 {
+		hash.Write(stringx.ToBytes(strings.TrimSpace(value)))
+	}
+
+	// credentials travel in cookies as well
+	value = req.Header.Get("Cookie")
 	if len(value) != 0 {
 		hash.Write(stringx.ToBytes(strings.TrimSpace(value)))
 	}
